@@ -175,6 +175,11 @@ class SgzCropper(SgzReader):
             If indexes to crop on are missing, or do not align with the compression blocks
         """
 
+        if self.is_2d or not self.structured:
+            # The cropped file is written as a regular cube (one header value and one trace per grid position):
+            # refuse sources which are not, before anything is written
+            raise NotImplementedError("Cropping is only supported for regular 3D SGZ files")
+
         iline_index_range, xline_index_range, zslices_index_range = self.check_and_correct_bounds(iline_index_range,
                                                                                                   xline_index_range,
                                                                                                   zslices_index_range)
